@@ -229,6 +229,9 @@ func tableApp(r *core.Run) {
 	}
 	var jobs []job
 	for _, b := range appTable {
+		if appExtOnly[b.name] {
+			continue // enumerated form by form in app_ext.go
+		}
 		hi := b.max + 1
 		if b.max < 0 {
 			hi = 3
@@ -287,6 +290,7 @@ func tableApp(r *core.Run) {
 		r.AddStates(1)
 	}
 	r.Sample(kase{"T-app", "(map 'list (lambda (x) x) '(a b))"})
+	tableAppExt(r) // app_ext.go
 }
 
 // ---------------------------------------------------------------------------
